@@ -1146,6 +1146,7 @@ fn main() {
             // crash-isolated batches; a tree on which many cases die is not explored to the end
             let mut from = 0u64;
             let mut crashes = 0u32;
+            let mut timeouts = 0u32;
             while from < total {
                 let n = 150.min(total - from);
                 let (f, c) = (from.to_string(), n.to_string());
@@ -1171,7 +1172,10 @@ fn main() {
                     json!({"case": name, "ended": how, "index": idx}),
                 );
                 crashes += 1;
-                if crashes >= 24 {
+                if matches!(ended, Ended::Timeout) {
+                    timeouts += 1;
+                }
+                if crashes >= 24 || timeouts >= 3 {
                     rep.notes.push(format!("stopped after {crashes} dead workers at case {idx} of {total}"));
                     break;
                 }
